@@ -1065,6 +1065,22 @@ class MasterSim(object):
         self.tick()
         masterapi.cell_remove_bucket(self.admin, inside[pod_idx % len(inside)])
 
+    def op_rebucket(self, rack_idx, pod_idx):
+        """An admin re-defines a rack under another pod (create_bucket on an
+        existing bucket rewrites it and posts a 'buckets' event). Masters of
+        this snapshot treat the bucket topology as constant while they run;
+        a new master builds the new topology."""
+        rack = self.racks[rack_idx % len(self.racks)]
+        if not self.admin.exists(z.path.bucket(rack)):
+            return
+        pods = sorted(name for name in self.admin.get_children(z.BUCKETS)
+                      if name.startswith('pod:'))
+        if not pods:
+            return
+        self.tick()
+        masterapi.create_bucket(self.admin, rack, pods[pod_idx % len(pods)])
+        self.count('rack_redefined_under_pod')
+
     def op_rmbucket(self, rack_idx):
         """An admin deletes the definition of a rack that may still hold
         servers (masterapi.delete_bucket: no event, the running master keeps
